@@ -120,6 +120,14 @@ def run(facts):
             r.ok(key, "index-accesses", "index expression not classifiable in one of the twins: silent (%s)" % why)
             continue
         # compare WHICH (field, index, r/w) accesses occur, not how often: reading a slot once into a temporary instead of twice is the same code
+        # a twin that destructures the slot (`Edge { node, next, .. }`) reads a whole array ('*') and indexes the binding, which is invisible here: the reads of
+        # that field are then not comparable index by index - only its writes (and the reads of the other field) are compared
+        for fld in {k[0] for k in list(a) + list(c) if k[1] == "*" and k[2] == "r"}:
+            for cnt in (a, c):
+                for k in [k for k in cnt if k[0] == fld and k[2] == "r"]:
+                    del cnt[k]
+            a[(fld, "any", "r")] = 1
+            c[(fld, "any", "r")] = 1
         if set(a) == set(c) and a:
             r.ok(key, "index-accesses", "both: %s (%s)" % (dict(a), why))
         else:
